@@ -439,6 +439,12 @@ func (e *Env) ident(name string) Val {
 	if name == "nil" {
 		return Val{T: "$nil", S: "$nil"}
 	}
+	if name == "$i" && e.act != nil {
+		if v, ok := e.act.lookupLocal("rangeindex", e.at, e.atIdx, e.phiOv); ok {
+			return intT("(+ " + v.T + " 1)")
+		}
+		e.fail("$i used outside a range loop")
+	}
 	if e.act != nil {
 		if v, ok := e.act.lookupLocal(name, e.at, e.atIdx, e.phiOv); ok {
 			if v.S == "$addr" {
@@ -704,6 +710,10 @@ func (e *Env) call(x ECall) Val {
 		}
 		ne := &Env{g: e.g, vars: vars, st: e.st, old: e.old, pkg: e.pkg, depth: e.depth + 1}
 		return ne.tr(p.Body)
+	}
+	if x.Fn == "errmsg" {
+		v := e.tr(x.Args[0])
+		return Val{T: "(errmsg " + v.T + ")", S: "Str", G: types.Typ[types.String]}
 	}
 	if f, ok := w.specFuns[x.Fn]; ok {
 		w.resolveSpecFun(f)
